@@ -315,6 +315,7 @@ func Delay[T any](duration time.Duration) func(Observable[T]) Observable[T] {
 
 				muNext.Lock()
 				muQueue.Unlock()
+				verifPoint("delay.popped")
 
 				_ = processNotificationWithObserverAndContext(
 					first.A,
@@ -630,12 +631,14 @@ func detachOn[T any](bufferSize int, onUpstream, onDownstream bool) func(Observa
 			switch {
 			case onUpstream:
 				go recoverUnhandledError(func() {
+					verifPoint("detach.goroutine-start")
 					consumeUpstream()
 				})
 
 				produceDownstream()
 			case onDownstream:
 				go recoverUnhandledError(func() {
+					verifPoint("detach.goroutine-start")
 					produceDownstream()
 				})
 
